@@ -464,5 +464,27 @@ def rule_mode_arith(ctx: Ctx, prog: Program) -> None:
                                   f"{f.qualname} tests `{ast.unparse(n)}` where `{ast.unparse(a)}` is a difference whose left operand is read from an unsigned "
                                   f"engine array ({', '.join(sorted(uparams))}): compiled code computes it in int64 (can be negative), interpreted code keeps the "
                                   "unsigned type (wraps to a large positive value) -- the two execution modes take different branches")
+    # sums: `u + k` with u read from an 8-bit engine array (the level pointer) is computed in int64 when compiled and in uint8 when interpreted,
+    # where it wraps past 255 -- reachable, since 256 levels are allowed.  A comparison must put the arithmetic on the other (Python int) side.
+    u8 = {r for r, t in uns.items() if t == "uint8"}
+    for f in prog.all_functions():
+        if f.module.endswith("__main__") or ".examples." in f.module:
+            continue
+        u8params = {p for p in f.params if any(r in u8 for r in roles.of(f, p)) and not any(r == "algorithms" for r in roles.of(f, p))}
+        if not u8params:
+            continue
+        for n in ast.walk(f.node):
+            if not isinstance(n, ast.Compare):
+                continue
+            for side in [n.left] + list(n.comparators):
+                if isinstance(side, ast.BinOp) and isinstance(side.op, ast.Add):
+                    ops = [side.left, side.right]
+                    loads = [o for o in ops if isinstance(o, ast.Subscript) and _base_name(o) in u8params]
+                    if loads:
+                        ctx.violation("R-MODE-ARITH", f.path, f.qualname, f"narrow-sum-compared:{ast.unparse(side)[:40]}", f"{f.path}:{n.lineno}",
+                                      f"{f.qualname} compares `{ast.unparse(side)}`, a sum whose operand is read from an 8-bit engine array: compiled code "
+                                      "computes it in int64, interpreted code in uint8, where it wraps past 255 (a level pointer of 254/255 is reachable with a "
+                                      "256-level stack) -- the guard holds in one execution mode and silently fails in the other; compare the element with "
+                                      "`bound - k` instead")
     ctx.ok("R-MODE-ARITH", f"no test of an unsigned difference against a negative value ({len(uns)} unsigned engine arrays, {n_diff} differences stored)",
            sample={"unsigned_arrays": uns})
